@@ -171,9 +171,11 @@ func (t *WeightedMerkleTrie) Deserialize(data []byte) error {
 	case *routingNode:
 		n.dirty = true
 		n.CalcHash()
+		n.dirty = false
 	case *shortNode:
 		n.dirty = true
 		n.CalcHash()
+		n.dirty = false
 	}
 	if !bytes.Equal(hash, t.root.Hash()) {
 		return errors.New("root hash mismatch")
